@@ -281,6 +281,7 @@ func (tx *FnTx) afterCall(desc string, post, pre *State, res []Term) *State {
 				out = post.clone()
 			}
 			out.ghost["cap!"+cp.Name] = Term{S: res[cp.K].S, Sort: res[cp.K].Sort, GT: res[cp.K].GT}
+			out.ghost["capset!"+cp.Name] = Term{S: "true", Sort: "Bool"}
 		}
 	}
 	return out
@@ -296,7 +297,9 @@ func (tx *FnTx) checkCallAsserts(desc string, when string, st, pre *State, res [
 		if ca.When != when || !strings.Contains(desc, ca.Pattern) {
 			continue
 		}
-		env := tx.baseEnv(st, pre)
+		// old(...) and fresh(...) in a call assertion refer to the function's entry state, as in postconditions
+		env := tx.baseEnv(st, tx.entry)
+		_ = pre
 		lim := tx.curIdx
 		if when == "after" {
 			lim = tx.curIdx + 1
@@ -311,13 +314,15 @@ func (tx *FnTx) checkCallAsserts(desc string, when string, st, pre *State, res [
 		}
 		s, err := env.TrBool(ca.Clause.E)
 		if err != nil {
-			if strings.Contains(err.Error(), "unknown identifier") {
+			if ca.InScope && strings.Contains(err.Error(), "unknown identifier") {
 				// the clause mentions variables that are not in scope at this call site: it does not apply here
+				tx.note("call assertion " + ca.Clause.Label + " skipped at a call of " + desc + " (" + err.Error() + ")")
 				continue
 			}
 			panic(specErr{fmt.Sprintf("at call %s: %v", ca.Pattern, err)})
 		}
 		k := tx.callOrdinal("assert:" + ca.Clause.Label)
+		tx.assertSites[ca.Clause.Label]++
 		tx.oblige("assert", fmt.Sprintf("%s@%d", ca.Clause.Label, k), s, tx.curReach, when+" call "+desc+": "+ca.Clause.Src)
 		// assert-then-assume: once proved (as its own obligation) the fact may be used by everything after it
 		tx.assumeReach(s)
